@@ -148,8 +148,15 @@ def expected(files, main="t.c"):
 
 # --------------------------------------------------------------------------------------------------------------
 # observers
-def norm(path):
-    return os.path.normpath(path)
+def norm(path, base=None):
+    """File names are compared as files, not as spellings: ./h.h == h.h; an absolute name inside `base` (the directory the
+    compiler ran in) is the same file as the relative one."""
+    p = os.path.normpath(path)
+    if base and os.path.isabs(p):
+        b = os.path.normpath(base)
+        if p.startswith(b + "/"):
+            p = p[len(b) + 1:]
+    return p
 
 
 def c_string_value(tok):
@@ -243,7 +250,8 @@ if __name__ == "__main__":
     # replay helper:  python3 c18_position.py E|D|S|X <observed file> <pid> <spec>   ; exit 1 iff the observation is
     # not one of the acceptable (file, line) pairs given as  file:line[,file:line]
     import sys
-    mode, path, pid, spec = sys.argv[1], sys.argv[2], int(sys.argv[3]), sys.argv[4]
+    mode, path, spec = sys.argv[1], sys.argv[2], sys.argv[4]
+    pid = int(sys.argv[3].split("-")[-1])
     ok = set()
     for part in spec.split(","):
         f, l = part.rsplit(":", 1)
@@ -254,20 +262,27 @@ if __name__ == "__main__":
         import pplex
         for p, l, f in observe_E(pplex.lex(text)):
             if p == pid:
-                got = (norm(f) if f is not None else None, l)
+                got = (norm(f, os.getcwd()) if f is not None else None, l)
     elif mode == "X":
         for ln in text.splitlines():
             w = ln.split(" ", 2)
             if len(w) == 3 and w[0] == str(pid):
-                got = (norm(w[2]), int(w[1]))
+                got = (norm(w[2], os.getcwd()), int(w[1]))
     elif mode == "D":
         d = observe_diag(text)
         if d:
-            got = (norm(d[0]), d[1])
+            got = (norm(d[0], os.getcwd()), d[1])
     elif mode == "S":
         table, mentions, records = observe_S(text)
         r = mentions.get(pid)
         if r:
-            got = (norm(table.get(r[0], "?")), r[1])
+            got = (norm(table.get(r[0], "?"), os.getcwd()), r[1])
+    elif mode == "R":      # every .loc record between the instructions of probes a and b (argument "a-b") is acceptable
+        a = int(sys.argv[3].split("-")[0])
+        table, mentions, records = observe_S(text)
+        bad = [(norm(table.get(f, "?"), os.getcwd()), l) for x, y, f, l in records
+               if (x, y) == (a, pid) and (norm(table.get(f, "?"), os.getcwd()), l) not in ok]
+        print("records between vp%d and vp%d that belong to neither statement:" % (a, pid), bad)
+        sys.exit(1 if bad else 0)
     print("observed", got, "acceptable", sorted(ok))
     sys.exit(0 if got in ok else 1)
